@@ -8,7 +8,8 @@ PROP = "C10"
 RUNNER = ("RunC10", "run_C10x")
 COQ_TARGETS = ["theories/RunTransform.vo", "theories/RunC10.vo"]
 AUTHORITY = ("C10_* (coq/props/C10.v): objective and active constraints of the result denote the parametric functions at (x, p); "
-             "everything else unchanged; missing parameter <=> error; round trip keeps the problem")
+             "everything else unchanged; missing parameter <=> error; round trip keeps the problem; C10_instance: EVALUATING the "
+             "instantiated instance at x gives the parametric objective / active constraints at (x, theta), removed constraints as stored")
 RULE = ("parametric instances made from random valid instances by turning a random subset of the variables that occur in the "
         "objective / constraints into parameters (degree <= 3, any representation); assignments: complete, with unrelated extra "
         "ids, missing each parameter in turn; plus Instance -> ParametricInstance -> with_parameters({}) round trips. "
